@@ -1357,6 +1357,9 @@ class Interp:
 
     def call_function(self, fv, args, kwargs, ctx):
         stub = ctx.stubs.get(fv.qualname)
+        if stub is not None and getattr(ctx, "skip_stub_once", None) == fv.qualname:
+            ctx.skip_stub_once = None
+            stub = None
         if stub is not None and not getattr(ctx, "_in_stub", None) == fv.qualname:
             ctx.call_log.append(("stub", fv.qualname))
             saved = getattr(ctx, "_in_stub", None)
